@@ -297,6 +297,13 @@ func modelStep(prev, cur *snap, op string, lpa int, addErr error) string {
 	for _, h := range hashes {
 		o := cur.objs[h]
 		old, was := prev.objs[h]
+		if was && old.TimeAdded != o.TimeAdded {
+			// the tx was removed and submitted again: another object under the same hash
+			if ask("rm "+hx32(h)) != "1" {
+				return "model remove of a present object failed"
+			}
+			was = false
+		}
 		if !was {
 			if op == "fill" {
 				fills = append(fills, hx32(h), hxA(o.Origin), hxAp(o.Delegator), hx.U(uint64(o.TimeAdded)), hx.B(o.Local))
@@ -311,10 +318,10 @@ func modelStep(prev, cur *snap, op string, lpa int, addErr error) string {
 		}
 		changed := (old.Payer == nil) != (o.Payer == nil) || (o.Payer != nil && (*old.Payer != *o.Payer || old.Cost.Cmp(o.Cost) != 0 || old.PriorityGasPrice.Cmp(o.PriorityGasPrice) != 0))
 		if changed && o.Payer != nil {
-			ask(fmt.Sprintf("price %s %s %s %s", hx32(h), hxA(*o.Payer), hxBig(o.Cost), hxBig(o.PriorityGasPrice)))
+			ask(fmt.Sprintf("price %s %s %s %s %s", hx32(h), hx.U(uint64(o.TimeAdded)), hxA(*o.Payer), hxBig(o.Cost), hxBig(o.PriorityGasPrice)))
 		}
 		if !old.Executable && o.Executable {
-			if ask("promote "+hx32(h)) != "1" {
+			if ask("promote "+hx32(h)+" "+hx.U(uint64(o.TimeAdded))) != "1" {
 				return "model promote of a present object failed"
 			}
 		}
@@ -654,6 +661,15 @@ func (w *world) apply(op *Op) (string, error) {
 		t := all[op.N%len(all)]
 		w.pool.Remove(t.Hash(), t.ID())
 		return "remove", nil
+	case "readd":
+		all := w.pool.Dump()
+		if len(all) == 0 {
+			return "remove", nil
+		}
+		sort.Slice(all, func(i, j int) bool { h1, h2 := all[i].Hash(), all[j].Hash(); return string(h1[:]) < string(h2[:]) })
+		t := all[op.N%len(all)]
+		w.pool.Remove(t.Hash(), t.ID())
+		return "add", w.pool.Add(t)
 	case "fill":
 		var txs tx.Transactions
 		for i := 0; i < op.N; i++ {
@@ -792,8 +808,11 @@ func genOp(r *hx.Rand, nGen int) Op {
 	switch {
 	case k < 50:
 		op.Kind = []string{"add", "add", "addlocal", "strict"}[r.Intn(4)]
-	case k < 62:
+	case k < 58:
 		op.Kind, op.N = "remove", r.Intn(64)
+		return op
+	case k < 62:
+		op.Kind, op.N = "readd", r.Intn(64)
 		return op
 	case k < 70:
 		op.Kind, op.N = "fill", 1+r.Intn(4)
@@ -844,7 +863,7 @@ func genSeq(r *hx.Rand, n int) *SeqCase {
 	gen := 0
 	for i := 0; i < n; i++ {
 		op := genOp(r, gen)
-		if op.Kind != "wash" && op.Kind != "remove" && op.Kind != "head" && op.Kind != "basefee" {
+		if op.Kind != "wash" && op.Kind != "remove" && op.Kind != "readd" && op.Kind != "head" && op.Kind != "basefee" {
 			gen++
 		}
 		sc.Ops = append(sc.Ops, op)
@@ -928,6 +947,12 @@ func runConc(ctx *hx.Ctx, sc *SeqCase) (class, summary string) {
 						t := all[i%len(all)]
 						w.pool.Remove(t.Hash(), t.ID())
 					}
+				case "readd":
+					if all := w.pool.Dump(); len(all) > 0 {
+						t := all[i%len(all)]
+						w.pool.Remove(t.Hash(), t.ID())
+						_ = w.pool.Add(t)
+					}
 				case "head":
 					headMu.Lock()
 					_ = w.chain.MintBlock()
@@ -978,6 +1003,65 @@ func runConc(ctx *hx.Ctx, sc *SeqCase) (class, summary string) {
 	return "", ""
 }
 
+// runReadd: the Remove-then-re-Add-inside-wash schedule.  N plain transfers enter through Fill (pooled, not yet
+// executable); one goroutine washes, the others remove a pooled tx and submit the very same tx again, over and over.
+// A wash that captured the old object and promotes it after the new object under the same hash was admitted must not
+// count the cost twice.  Judge: the accounting predicate at quiescence, and empty maps after draining the pool.
+func runReadd(ctx *hx.Ctx, n int, seed uint64) (class, summary string) {
+	w := newWorld(200, 64)
+	defer w.close()
+	var txs tx.Transactions
+	for i := 0; i < n; i++ {
+		op := Op{Kind: "fill", From: i % 10, Gas: 21000, Nonce: seed<<16 | uint64(i), Exp: 1000}
+		txs = append(txs, w.buildTx(&op))
+	}
+	w.pool.Fill(txs)
+	stop := make(chan struct{})
+	var wg sync.WaitGroup
+	for g := 0; g < 6; g++ {
+		wg.Add(1)
+		go func(g int) {
+			defer wg.Done()
+			for i := g; ; i += 6 {
+				select {
+				case <-stop:
+					return
+				default:
+				}
+				t := txs[i%len(txs)]
+				w.pool.Remove(t.Hash(), t.ID())
+				_ = w.pool.Add(t)
+			}
+		}(g)
+	}
+	for k := 0; k < 6; k++ {
+		w.pool.VerifWash(k%2 == 0)
+	}
+	close(stop)
+	wg.Wait()
+	s := w.snapshot()
+	if msg := s.propertyCheck(); msg != "" {
+		return "accounting-drift-readd-in-wash", msg
+	}
+	for _, t := range w.pool.Dump() {
+		w.pool.Remove(t.Hash(), t.ID())
+	}
+	s = w.snapshot()
+	if len(s.objs) == 0 && (len(s.quota) != 0 || len(s.cost) != 0) {
+		return "accounting-drift-readd-in-wash", fmt.Sprintf("pool is empty but quota has %d and cost %d entries (residue after a tx was removed and submitted again during a wash)", len(s.quota), len(s.cost))
+	}
+	return "", ""
+}
+
+func doReadd(ctx *hx.Ctx, n int, seed uint64) {
+	class, summary := runReadd(ctx, n, seed)
+	ctx.Cov.Case(fmt.Sprintf("readd %d %d", n, seed), true, nil)
+	ctx.Cov.Count("readd_in_wash_rounds")
+	if class != "" {
+		ctx.Violation(class, summary, map[string]any{"kind": "readd", "n": n, "seed": seed}, true)
+	}
+}
+
 func doConc(ctx *hx.Ctx, sc *SeqCase) {
 	class, summary := runConc(ctx, sc)
 	b, _ := json.Marshal(sc)
@@ -998,6 +1082,17 @@ func runReplay(ctx *hx.Ctx, path string) {
 	}
 	if json.Unmarshal(b, &doc) != nil || doc.Replay == nil {
 		doc.Replay = b
+	}
+	var rd struct {
+		Kind string `json:"kind"`
+		N    int    `json:"n"`
+		Seed uint64 `json:"seed"`
+	}
+	if json.Unmarshal(doc.Replay, &rd) == nil && rd.Kind == "readd" {
+		for i := 0; i < 10; i++ {
+			doReadd(ctx, rd.N, rd.Seed+uint64(i))
+		}
+		return
 	}
 	var sc SeqCase
 	if err := json.Unmarshal(doc.Replay, &sc); err != nil {
@@ -1051,6 +1146,10 @@ func main() {
 		rs := rnd.Fork(1)
 		for i := 0; i < ctx.Scale(500, 8000); i++ {
 			doSeq(ctx, genSeq(rs, 20+rs.Intn(60)))
+		}
+		rr := rnd.Fork(3)
+		for i := 0; i < ctx.Scale(25, 400); i++ {
+			doReadd(ctx, 20+rr.Intn(60), rr.Uint64()>>20)
 		}
 		rc := rnd.Fork(2)
 		for i := 0; i < ctx.Scale(40, 600); i++ {
